@@ -480,6 +480,8 @@ pub fn gen(rng: &mut Rng, n: usize, thorough: bool, emit: &mut dyn FnMut(String)
     // System slice (harness/src/sys.rs): the whole pipeline with real file appenders, pattern encoders
     // and threshold filters over histories of records; cases whose first field is the literal `sys`
     crate::sys::gen(rng, if thorough { 3000 } else { 300 }, thorough, emit);
+    // stage 2 (A): histories with runtime reconfigurations (`sys2`)
+    crate::sys::gen2(rng, if thorough { 2000 } else { 200 }, thorough, emit);
 }
 
 // ------------------------------------------------------------------------------------------------
@@ -488,6 +490,9 @@ pub fn gen(rng: &mut Rng, n: usize, thorough: bool, emit: &mut dyn FnMut(String)
 pub fn exec(fields: &[&str]) -> String {
     if fields.first() == Some(&"sys") {
         return crate::sys::exec(fields);
+    }
+    if fields.first() == Some(&"sys2") {
+        return crate::sys::exec2(fields);
     }
     if fields.len() != 5 && fields.len() != 6 && fields.len() != 10 {
         return "bad-case".to_owned();
